@@ -431,8 +431,10 @@ def run(ctx):
     ctx.actions["request:index"] = 1
     ctx.extra["library_raised_when_called_directly"] = ood
     ctx.extra["calls_recorded_by_wrapper"] = sum(1 for t in traces if t["kind"] == "req" and t["ev"][3]["rec"] == 1)
-    if ood * 20 > len(traces):
-        raise tlc.MachineryError("%d of %d generated requests are outside the library's domain" % (ood, len(traces)))
+    # (requests on which the library itself raises when called directly: on the unchanged tree there are none - every generated request
+    #  is inside the domain of vincinv / vincdir; on a tree where the library refuses them, what the API then answers is still judged
+    #  by Trace_Api against what the library did)
+    ctx.extra["library_raised_share"] = round(ood / float(max(1, len(traces))), 4)
     r = mc.result()
     pool.shutdown()
     ctx.add_tlc(r, "MC_Api exhaustive")
